@@ -275,6 +275,10 @@ def run(cx):
             ok = len(ln) == 1 and len(sb) == 1 and term_has_call(sb[0][2][0], "anemo::config::Config::max_concurrent_outstanding_connecting_connections") \
                 and strip_identity(sb[0][2][1])[0] == "call" and name_matches(strip_identity(sb[0][2][1])[1], "JoinSet::len") and mentions_field(sb[0][2][1], "pending_connections")
         ob.require(ok, "cap/number-to-dial", f"number_to_dial = {show(n)[:160]}", hc.path)
+        gb_ = cx.body("anemo::config::Config::max_concurrent_outstanding_connecting_connections")
+        t_ = Origins(gb_).of_local(0)
+        ob.require(mentions_field(t_, "max_concurrent_outstanding_connecting_connections") and mentions_param(t_, "self"), "cap/getter",
+                   f"max_concurrent_outstanding_connecting_connections() = {show(t_)[:80]}", gb_.path)
         it = ho.of_operand(tk[0].args[0])
         ob.require(term_has_call(it, "Iterator::filter") and term_has_call(it, "Iterator::collect"), "cap/over-eligible", f"take over {show(it)[:80]}", hc.path)
         nx = [c for c in hc.calls() if name_matches(c.fn, "Iterator::next") and term_has_call(ho.of_operand(c.args[0]), "Iterator::take") and not hc.is_cleanup(c.bb)]
